@@ -263,6 +263,18 @@ func init() {
 	stubs["github.com/cosmos/cosmos-sdk/types.WrapSDKContext"] = func(e *Exec, fn *ssa.Function, args []Value) Value {
 		return Iface{Typ: fn.Signature.Params().At(0).Type(), Val: args[0]}
 	}
+	stubs["(github.com/cosmos/cosmos-sdk/types.Context).BlockHeight"] = func(e *Exec, fn *ssa.Function, args []Value) Value {
+		c, ok := args[0].(Opaque).Data.(*CtxData)
+		if !ok || c == nil {
+			panic(engineErr("BlockHeight of an unmodelled context"))
+		}
+		if c.BlockHeight == nil {
+			c.BlockHeight = e.freshEnv("blockheight", smt.BV64)
+			e.assume(smt.ULt(c.BlockHeight, smt.Const(1<<62, 64)))
+			e.Notes["Context.BlockHeight: an arbitrary non-negative height, fixed per context (environment value; the native environments run at height 0)"] = true
+		}
+		return c.BlockHeight
+	}
 	stubs["(github.com/cosmos/cosmos-sdk/types.Context).BlockTime"] = func(e *Exec, fn *ssa.Function, args []Value) Value {
 		c := args[0].(Opaque).Data.(*CtxData)
 		return Opaque{Kind: "time", Data: c.BlockTime}
